@@ -98,6 +98,12 @@ impl Outgoing {
         self.data_buffer.clone()
     }
 
+    #[cfg(feature = "verif-hooks")]
+    pub fn verif_inflight(&self) -> (Vec<u16>, u16) {
+        let ids = self.inflight_buffer.iter().map(|(p, _, _)| *p).collect();
+        (ids, self.last_pkid)
+    }
+
     pub fn free_slots(&self) -> usize {
         MAX_INFLIGHT - self.inflight_buffer.len()
     }
